@@ -53,6 +53,9 @@ def run_shard(cfgs, draws, sub_seed):
                     if p not in pids:
                         pids.append(p)
                 fmt = adversarial_id(rng, 20)
+                if rng.random() < 0.3:
+                    # format ids may contain whitespace (only all-blank ones are rejected); H is taken of pid+format as given
+                    fmt = rng.choice([" " + fmt, fmt + " ", fmt[:1] + " " + fmt[1:], "\t" + fmt])
                 cA = make_content(rng.getrandbits(30), rng.choice([0, 1, 100, 9000]))
                 cB = make_content(rng.getrandbits(30), rng.choice([2, 4097]))
                 if cA == cB:
